@@ -174,7 +174,8 @@ def c07(ctx):
     g1 = gen(ctx, "Deb822Gen.tla", "Deb822Gen_read_tok_%s.cfg" % t, ctx.path("tok.ndjson"), what="token documents")
     g2 = gen(ctx, "Deb822Gen.tla", "Deb822Gen_read_bytes_%s.cfg" % t, ctx.path("bytes.ndjson"), what="byte strings")
     r = hgen(ctx, "C07", ctx.path("rand.ndjson"))
-    judge(ctx, "C07", vf.cat(ctx.path("vec.ndjson"), g1, g2, r), what="four read paths vs RefRead")
+    gl = gen(ctx, "LongGen.tla", "LongGen_read.cfg", ctx.path("long.ndjson"), what="lines around and beyond the read buffer size")
+    judge(ctx, "C07", vf.cat(ctx.path("vec.ndjson"), g1, g2, r, gl), what="four read paths vs RefRead")
     ctx.exhaustive = True
 
 
@@ -190,7 +191,8 @@ def c08(ctx):
     g2 = gen(ctx, "Deb822Gen.tla", "Deb822Gen_rw_tok_%s.cfg" % t, ctx.path("tok.ndjson"), what="token documents")
     g3 = gen(ctx, "Deb822Gen.tla", "Deb822Gen_rw_bytes_%s.cfg" % t, ctx.path("bytes.ndjson"), what="byte strings")
     r = hgen(ctx, "C08", ctx.path("rand.ndjson"))
-    judge(ctx, "C08", vf.cat(ctx.path("vec.ndjson"), g1, g2, g3, r), what="write/read laws")
+    gl = gen(ctx, "LongGen.tla", "LongGen_write.cfg", ctx.path("long.ndjson"), what="lines around and beyond the read buffer size")
+    judge(ctx, "C08", vf.cat(ctx.path("vec.ndjson"), g1, g2, g3, r, gl), what="write/read laws")
     ctx.exhaustive = True
 
 
@@ -323,7 +325,8 @@ def c17(ctx):
     mc(ctx, "ChangelogMC.tla", "ChangelogMC_%s.cfg" % t, what="ParseOne/Parse line machine: all entries or an error")
     g1 = gen(ctx, "ChangelogGen.tla", "ChangelogGen_%s.cfg" % t, ctx.path("cl.ndjson"), what="rendered changelogs")
     r = hgen(ctx, "C17", ctx.path("rand.ndjson"), base=g1)
-    judge(ctx, "C17", vf.cat(ctx.path("vec.ndjson"), g1, r), what="Parse on full text, every prefix, corruptions")
+    gl = gen(ctx, "LongGen.tla", "LongGen_changelog.cfg", ctx.path("long.ndjson"), what="change lines beyond the read buffer size")
+    judge(ctx, "C17", vf.cat(ctx.path("vec.ndjson"), g1, r, gl), what="Parse on full text, every prefix, corruptions")
     ctx.exhaustive = True
 
 
@@ -410,7 +413,8 @@ def c19(ctx):
       "(one receiver, two documents); the list is run again in reverse order in a fresh process.")
 def c09(ctx):
     g1 = gen(ctx, "StructGen.tla", "StructGen.cfg", ctx.path("st.ndjson"), what="probe values, documents")
-    judge(ctx, "C09", g1, what="Marshal/Unmarshal vs descriptor algebra", reverse=True)
+    gl = gen(ctx, "LongGen.tla", "LongGen_struct.cfg", ctx.path("long.ndjson"), what="fields whose line is around and beyond the read buffer size")
+    judge(ctx, "C09", vf.cat(ctx.path("vec.ndjson"), g1, gl), what="Marshal/Unmarshal vs descriptor algebra", reverse=True)
     ctx.exhaustive = True
     ctx.assumptions += ["'optional zero fields are omitted' is read as 'fields whose text is empty': int 0 / bool false are written "
                         "as 0 / no by design", "pointer fields are not among the supported kinds"]
@@ -424,7 +428,8 @@ def c09(ctx):
       "are flattened (the harness's key set is checked against the table) and every field and derived accessor is judged.")
 def c10(ctx):
     g1 = gen(ctx, "DebDocsGen.tla", "DebDocsGen.cfg", ctx.path("docs.ndjson"), what="document models per kind")
-    judge(ctx, "C10", g1, what="typed parsers vs document model", reverse=True)
+    gl = gen(ctx, "LongGen.tla", "LongGen_doc.cfg", ctx.path("long.ndjson"), what="Depends lines around and beyond the read buffer size")
+    judge(ctx, "C10", vf.cat(ctx.path("vec.ndjson"), g1, gl), what="typed parsers vs document model", reverse=True)
     ctx.exhaustive = True
 
 
